@@ -192,3 +192,53 @@ Proof.
 Qed.
 
 End Sorted.
+
+(** ** node and edge counts: the counted collection holds every non-terminal
+    sub-diagram exactly once *)
+Section Counts.
+
+Inductive subdiagram : dd -> dd -> Prop :=
+| sub_refl t : subdiagram t t
+| sub_child k cs c s : In c cs -> subdiagram c s -> subdiagram (N k cs) s.
+
+Lemma subnodes_spec : forall t s, In s (subnodes t) <->
+  (subdiagram t s /\ exists k cs, s = N k cs).
+Proof.
+  induction t as [v|k cs IH] using dd_ind'; intros s.
+  - cbn. split; [intros []|]. intros [H (k & cs & ->)]. inversion H.
+  - cbn [subnodes]. split.
+    + intros [<-|Hin].
+      * split; [constructor|eauto].
+      * apply in_flat_map in Hin. destruct Hin as (c & Hc & Hs).
+        rewrite Forall_forall in IH. apply (IH c Hc) in Hs. destruct Hs as [Hsub Hn].
+        split; [econstructor; eauto|exact Hn].
+    + intros [Hsub Hn]. inversion Hsub as [|k' cs' c s' Hc Hs]; subst.
+      * now left.
+      * right. apply in_flat_map. exists c. split; [exact Hc|].
+        rewrite Forall_forall in IH. apply (IH c Hc). split; assumption.
+Qed.
+
+Lemma dedup_in : forall l x, In x (dedup l) <-> In x l.
+Proof.
+  induction l as [|a l IH]; intros x; [reflexivity|]. cbn [dedup].
+  destruct (existsb (dd_eqb a) l) eqn:E.
+  - rewrite IH. split; [now right|]. intros [<-|H]; [|exact H].
+    apply existsb_exists in E. destruct E as (y & Hy & He). apply dd_eqb_eq in He. now subst.
+  - cbn. rewrite IH. reflexivity.
+Qed.
+
+Lemma dedup_nodup : forall l, NoDup (dedup l).
+Proof.
+  induction l as [|a l IH]; cbn [dedup]; [constructor|].
+  destruct (existsb (dd_eqb a) l) eqn:E; [exact IH|].
+  constructor; [|exact IH]. rewrite dedup_in. intros Hin.
+  assert (existsb (dd_eqb a) l = true); [|congruence].
+  apply existsb_exists. exists a. split; [exact Hin|apply dd_eqb_refl].
+Qed.
+
+Theorem counted_nodes_spec t :
+  NoDup (dedup (subnodes t)) /\
+  forall s, In s (dedup (subnodes t)) <-> (subdiagram t s /\ exists k cs, s = N k cs).
+Proof. split; [apply dedup_nodup|]. intros s. rewrite dedup_in. apply subnodes_spec. Qed.
+
+End Counts.
